@@ -1779,6 +1779,44 @@ func (fr *Frame) execInstr(st *State, in ssa.Instruction) {
 		for _, a := range x.Call.Args {
 			fr.val(st, a)
 		}
+		// ownership of what the goroutine shares with its spawner: a variable the closure captures by reference must not be
+		// overwritten by the loop that spawns it (each iteration would change what the earlier goroutines read)
+		if mc, ok := x.Call.Value.(*ssa.MakeClosure); ok && fr.parent == nil {
+			bad := ""
+			for _, li := range findLoops(fr.fn) {
+				if !li.blocks[x.Block().Index] {
+					continue
+				}
+				// li is a loop around the go statement
+				for _, b := range mc.Bindings {
+					al, ok := b.(*ssa.Alloc)
+					if !ok || al.Block() == nil || li.blocks[al.Block().Index] {
+						continue
+					}
+					if refs := al.Referrers(); refs != nil {
+						for _, r := range *refs {
+							if stI, ok := r.(*ssa.Store); ok && stI.Addr == ssa.Value(al) && li.blocks[stI.Block().Index] {
+								bad = al.Comment
+								if bad == "" {
+									bad = al.Name()
+								}
+							}
+						}
+					}
+				}
+			}
+			phi := "(= 0 0)"
+			desc := "variables a spawned goroutine captures by reference are not overwritten by the spawning loop"
+			if bad != "" {
+				phi = "false"
+				desc += ": " + bad + " is declared outside the loop and assigned inside it"
+			}
+			// the rule is syntactic (every path through the loop overwrites the variable): the obligation does not depend on
+			// the path condition
+			if o := u.check(fr, st, "go-capture", "", phi, desc, x.Pos(), nil); o != nil && bad != "" {
+				o.goal, o.bodyLen = "true", 0
+			}
+		}
 	case *ssa.Send:
 		// a send enqueues: the ghost records, per channel object, how many values were sent and the last one. Blocking (and
 		// what other goroutines do meanwhile) is outside the sequential model.
